@@ -1,3 +1,28 @@
-From Verif Require Import Base.
-Theorem placeholder : True. Proof. exact I. Qed.
-Print Assumptions placeholder.
+(* C18 — remote definitions are validated totally and named consistently with lookup. *)
+From Coq Require Import String.
+From Verif Require Import Base Resolve ResolveProofs Remote RemoteProofs.
+
+Theorem validate_ok_iff :
+  forall fuel prefix fs,
+    (exists ps, validate_fields fuel prefix fs = VOk ps) <-> all_valid fuel fs = true.
+Proof. exact validate_ok_iff_lemma. Qed.
+Print Assumptions validate_ok_iff.
+
+Theorem naming_agrees_with_lookup :
+  forall p, p <> [] -> forallb no_dot p = true -> split_dot (wire_name p) = p.
+Proof. exact naming_agrees_lemma. Qed.
+Print Assumptions naming_agrees_with_lookup.
+
+Theorem stub_paths_nonempty :
+  forall fuel prefix fs ps,
+    validate_fields fuel prefix fs = VOk ps ->
+    forall p, In p ps -> exists suffix, p = (prefix ++ suffix)%list /\ suffix <> [].
+Proof. exact validate_paths_wf. Qed.
+Print Assumptions stub_paths_nonempty.
+
+(* the error is the one of the first offending field in field order, depth first *)
+Example first_offender_decides :
+  validate [("A"%string, RFunc 1 false 1 true); ("B"%string, RFunc 1 true 1 false)] = VErr ErrInvalidArgs /\
+  validate [("N"%string, RStruct [("B"%string, RFunc 1 true 1 false)]); ("A"%string, RFunc 1 false 1 true)] = VErr ErrInvalidReturn /\
+  validate [("A"%string, RFunc 1 false 1 false)] = VErr ErrInvalidReturn.
+Proof. repeat split. Qed.
